@@ -17,13 +17,13 @@ import (
 // ConnFaults are the scripted faults of one connection, addressed by stream offsets.
 type ConnFaults struct {
 	// client→server direction
-	C2SStallAt  int64 `json:"c2sStallAt,omitempty"`  // bytes at offset >= this never arrive (peer stops reading); -1/0 = off (use C2SStall flag)
-	C2SStall    bool  `json:"c2sStall,omitempty"`    // enables C2SStallAt
-	ResetAt     int64 `json:"resetAt,omitempty"`     // connection reset when the client writes the byte at this offset
-	Reset       bool  `json:"reset,omitempty"`
-	WriteFailAt int64 `json:"writeFailAt,omitempty"` // client Write returns an error when reaching this offset (short write)
-	WriteFail   bool  `json:"writeFail,omitempty"`
-	WriteFailNth int  `json:"writeFailNth,omitempty"` // the n-th Write call of the client (1-based) fails without accepting anything
+	C2SStallAt   int64 `json:"c2sStallAt,omitempty"` // bytes at offset >= this never arrive (peer stops reading); -1/0 = off (use C2SStall flag)
+	C2SStall     bool  `json:"c2sStall,omitempty"`   // enables C2SStallAt
+	ResetAt      int64 `json:"resetAt,omitempty"`    // connection reset when the client writes the byte at this offset
+	Reset        bool  `json:"reset,omitempty"`
+	WriteFailAt  int64 `json:"writeFailAt,omitempty"` // client Write returns an error when reaching this offset (short write)
+	WriteFail    bool  `json:"writeFail,omitempty"`
+	WriteFailNth int   `json:"writeFailNth,omitempty"` // the n-th Write call of the client (1-based) fails without accepting anything
 	// server→client direction
 	S2CStallAt int64 `json:"s2cStallAt,omitempty"` // bytes at offset >= this never arrive
 	S2CStall   bool  `json:"s2cStall,omitempty"`
@@ -214,10 +214,10 @@ type End struct {
 	rx, tx   *stream
 	closed   bool
 	// CloseStep is the kernel step at which Close was called (-1: never).
-	CloseStep  int
-	CloseTime  int64
-	CloseCount int
-	rdl, wdl   int64 // absolute deadlines in virtual ns; 0 none
+	CloseStep     int
+	CloseTime     int64
+	CloseCount    int
+	rdl, wdl      int64 // absolute deadlines in virtual ns; 0 none
 	Reads, Writes int
 	TimeoutsFired int
 }
@@ -298,7 +298,11 @@ func (p *Pipe) StallS2CFrom(off int64) {
 // DripS2CFrom delivers server bytes from offset off at one byte per dt.
 //
 //go:norace
-func (p *Pipe) DripS2CFrom(off int64, dt int64) { p.s2c.dripAt = off; p.s2c.dripNs = dt; p.s2c.dripT0 = -1 }
+func (p *Pipe) DripS2CFrom(off int64, dt int64) {
+	p.s2c.dripAt = off
+	p.s2c.dripNs = dt
+	p.s2c.dripT0 = -1
+}
 
 // ResetC2SFrom: the connection is reset when the client writes the byte at offset off.
 //
